@@ -21,7 +21,7 @@ TECHNIQUE = 'runtime monitoring: metamorphic relations over real builds (rebuild
 LEVEL_TEXT = ('Held on the generated sequences only: for every 1-5 stage sequence over priorities, !del and !merge the relations are checked at every '
               'insertion position, for >=3 key permutations, and for every single node (small documents) or random nodes (large ones) as the !unsafe/!new site; '
               'a sample of cases is rebuilt in a fresh interpreter with a different PYTHONHASHSEED. No model is involved.')
-LEVEL_NOTE = ('Trusted: the harness transformations. The idempotence relation excludes the remove-this-key idiom (value-less !del, !del on an empty container or falsy scalar), '
+LEVEL_NOTE = ('Trusted: the harness transformations. The idempotence relation excludes the remove-this-key idiom (value-less / null !del, !del on an empty container), '
               'as the statement does. Priority tags on single list elements: checked strictly where nothing is renumbered (trailing lower-priority run on the newer scalar list), '
               'elsewhere repeat-last failures that vanish once the element tags are taken off are attributed to the recorded finding; delete tags on elements and tagged container elements are not generated.')
 RULE = ('seeded sequences x relations; non-trivial = at least one priority/!del/!merge tag and two stages sharing a top-level key; distinct = hash of texts')
@@ -37,7 +37,7 @@ def _has_remove_idiom(doc):
         if n.get('del') is True:
             if n['t'] in ('map', 'seq') and not n['items']:
                 return True
-            if n['t'] == 'sc' and not n['v']:
+            if n['t'] == 'sc' and n['v'] is None:
                 return True
     return False
 
